@@ -298,7 +298,10 @@ func main() {
 	regEvals, regLookups := 0, 0
 	for _, r := range regs {
 		if len(r.StrayFiles) > 0 {
-			toolError("registry worker %d: scheme lookups created files %v (harness assumption broken)", r.Variant, r.StrayFiles)
+			// the lookups open "<name>://h/p" for every candidate name; for names that are no schemes the string is a
+			// scheme-less relative URL with a query or fragment ("q?://h/p") or an invalid one: nothing may be opened
+			col.add(partRegistry, r.Variant*1000000, "registry:lookup-of-unregistered-name-created-files", fmt.Sprintf("registry enumeration order %d: Open(\"<name>://h/p\") over the candidate scheme names left files %v in the working directory (a relative file URL with a query or fragment was opened)", r.Variant, r.StrayFiles),
+				map[string]any{"part": "registry", "index": r.Variant * 1000000, "variant": r.Variant})
 		}
 		regEvals += r.SinkAttempts + r.EncoderOps
 		regLookups += r.Lookups
